@@ -19,7 +19,7 @@
 (* decides whether a terminator is written - the same state the real        *)
 (* encoders keep (json/visitor.go first/inArray, */visitor.go length).      *)
 (***************************************************************************)
-EXTENDS GenEvents, SFCbor, SFUbjson, SFJson
+EXTENDS GenEvents, SFCbor, SFUbjson, SFJson, SFVisitors
 
 \* ---- concretisation of abstract events (small scalars only) ------------------
 ConcInt(ty) == [EvInt(CUint(<<5>>)) EXCEPT !.ty = ty]
@@ -120,4 +120,7 @@ Transcode ==
                   u == DecUb(UbEncode(c)).ev
                   j == DecJs(JsEncode(u)) IN
               JsClass(j) = "complete" /\ SeqEquiv({"f32as64"}, Want, Values(j.ev))
+\* package visitors: ExpectObjVisitor on every complete stream, and on every prefix (abandoned documents)
+ExpectObjTheorem == Terminal => EoTheorem(ConcStream)
+ExpectObjPrefix == EoPrefix(ConcStream)
 =============================================================================
